@@ -8,6 +8,11 @@ import (
 )
 
 func impl(in hv.Val) hv.Val {
+	if l, isList := in.(hv.L); isList && hv.AsInt(l[0]) == 3 { // [3 payload]: removePaddingSSL30
+		p := append([]byte(nil), hv.AsBytes(l[1])...)
+		out, good := bfe_tls.VerifRemovePaddingSSL30(p)
+		return hv.L{hv.B(out), hv.I(int(good))}
+	}
 	if l, isList := in.(hv.L); isList { // [2 vers clen full]: halfConn.decrypt on a CBC record with a valid MAC
 		vers := uint16(hv.AsInt(l[1]))
 		clen := int(hv.AsInt(l[2]))
@@ -33,6 +38,29 @@ func gen(r *hv.Rng, i int, tier string) (string, hv.Val) {
 	}
 	if i%4 == 1 {
 		return genRecord(r)
+	}
+	if i%8 == 2 { // removePaddingSSL30 directly: padding byte around the payload length
+		n := r.Range(1, 300)
+		b := r.Bytes(n)
+		p := n + r.Range(-3, 2)
+		if r.Chance(1, 4) {
+			p = r.Intn(256)
+		}
+		if p < 0 {
+			p = 0
+		}
+		if p > 255 {
+			p = 255
+		}
+		b[n-1] = byte(p)
+		class := "ssl30-ok"
+		if p+1 > n {
+			class = "ssl30-too-long"
+		}
+		if p+1 == n || p == n {
+			class += "-edge"
+		}
+		return class, hv.L{hv.I(3), hv.B(b)}
 	}
 	// structured: length 1..400, padding byte p, valid padding with 0/1/2 corrupted positions
 	n := r.Range(1, 400)
@@ -113,7 +141,11 @@ func genRecord(r *hv.Rng) (string, hv.Val) {
 		}
 		class = "rec-random-pad"
 	case 2: // wrong length byte (shorter / longer / huge)
-		v := []int{padLen - 2, padLen, padLen + 15, 255, 0}[r.Intn(5)]
+		total := clen + 20 + padLen
+		v := []int{padLen - 2, padLen, padLen + 15, 255, 0, total - 2, total - 1, total, total + 1}[r.Intn(9)]
+		if v > 255 {
+			v = 255
+		}
 		if v < 0 {
 			v = 0
 		}
